@@ -380,6 +380,32 @@ func (g *Gen) Struct(depth int) *Ty {
 	return st
 }
 
+// VariantVec generates a vector whose elements are selector-driven variant structs, so that
+// consecutive elements often select the SAME variant with different payloads (state that a decoder
+// carries from one element to the next shows up here).
+func (g *Gen) VariantVec(depth int) (*Ty, string) {
+	st := &Ty{Kind: "struct"}
+	if g.R.Intn(2) == 0 {
+		t, tag := g.Type(0, true)
+		st.Fields = append(st.Fields, Field{Name: g.name(), Tag: tag, T: t})
+	}
+	sel := Field{Name: g.name(), Tag: g.enumTag(), T: &Ty{Kind: "enum"}}
+	st.Fields = append(st.Fields, sel)
+	for j, k := 0, 1+g.R.Intn(3); j < k; j++ {
+		vt, vtag := g.Type(depth, true)
+		tag := fmt.Sprintf("selector:%s,val:%d", sel.Name, j)
+		if vtag != "" {
+			tag = vtag + "," + tag
+		}
+		st.Fields = append(st.Fields, Field{Name: g.name(), Tag: tag, Ptr: true, T: vt})
+	}
+	if g.R.Intn(3) == 0 {
+		t, tag := g.Type(0, true)
+		st.Fields = append(st.Fields, Field{Name: g.name(), Tag: tag, T: t})
+	}
+	return &Ty{Kind: "vec", Elem: st}, g.lenTag()
+}
+
 // tagMax extracts (count-relevant) limits of a length/enum tag for value generation.
 func tagLimits(tag string) (min, max uint64, size int) {
 	max = 40
